@@ -70,49 +70,22 @@ def dec_prio(p, res):
     spread = max(list(b.values()) + [u]) - min(b.values())
     chk(len(ups) == 1 and len(downs) == 1 and ups == downs and isinstance(ups[0], int) and ups[0] > spread,
         'parenthesis bump +%s/-%s > priority spread %d' % (ups, downs, spread), 'an operator inside parentheses must outrank every operator outside', parse)
-    # the bump is applied on the "(" edge and removed on the ")" edge
-    okb = False
-    for n in parse.body_nodes():
-        if isinstance(n, ast.If):
-            pass
-    s = src_of(parse.node)
-    okb = s.index('scanner.eat(Operator.LeftParenthesis)') < s.index('priority += ') < s.index('scanner.eat(Operator.RightParenthesis)') < s.index('priority -= ')
-    chk(okb, 'bump on "(" and un-bump on ")"', 'priority bump must follow the parenthesis edges', parse)
-    # operators are created with the current priority
-    for fn_, name in ((op1, 'op1'), (op2, 'op2')):
-        calls = [c for c in parse.body_nodes() if isinstance(c, ast.Call) and src_of(c.func) == name]
-        chk(len(calls) == 1 and [src_of(a) for a in calls[0].args] == ['ch', 'priority'], 'parse: %s(ch, priority)' % name,
-            'operator tokens take the running parenthesis priority', parse)
-    # reduce loop of order_tokens
+    # the structure of the parser loop (bump on "(", un-bump on ")", operators created with the running priority) and of the
+    # reduce loop of order_tokens (stack top re-read every iteration, reduce while new.priority <= pending.priority, the
+    # reduced operator moves to the output, the new one is pushed afterwards) are compared with the reviewed decision tables
+    from .tablecheck import check_table
+    check_table(p, res, 'DEC-PRIO', 'math_expression.parser.parse', 'parser loop: priority bump follows the parenthesis edges; operator tokens take the running parenthesis priority')
+    check_table(p, res, 'DEC-PRIO', 'math_expression.parser.order_tokens',
+                'reduce loop: the pending operator is re-read from the stack top on every iteration; equal precedence reduces (left association: <=); the reduced operator goes to the output before the new one is pushed')
     ot = p.func('math_expression.parser.order_tokens')
     loops = [n for n in ot.body_nodes() if isinstance(n, ast.While)]
     if len(loops) != 1:
-        raise AnalysisError('DEC-PRIO: order_tokens has %d while loops' % len(loops))
+        res.undecided('order_tokens', 'one reduce loop expected')
+        res.require_floor(14)
+        return
     lp = loops[0]
     cmps = [n for n in ast.walk(lp) if isinstance(n, ast.Compare) and 'priority' in src_of(n)]
-    if len(cmps) != 1 or len(cmps[0].ops) != 1:
-        raise AnalysisError('DEC-PRIO: unrecognised reduce condition in order_tokens')
-    c = cmps[0]
-    lhs, rhs, op = src_of(c.left), src_of(c.comparators[0]), type(c.ops[0])
-    # pending operand must be re-read from the stack top inside the loop
-    pend = c.comparators[0] if lhs == 't.priority' else c.left
-    fresh = src_of(pend) == 'operators[-1].priority'
-    if not fresh and isinstance(pend, ast.Attribute) and isinstance(pend.value, ast.Name):
-        nm = pend.value.id
-        inside = [n for n in ast.walk(lp) if isinstance(n, ast.Assign) and src_of(n.targets[0]) == nm and src_of(n.value) == 'operators[-1]']
-        fresh = bool(inside) and all(n.lineno < c.lineno for n in inside) and not any(
-            isinstance(n, ast.Assign) and src_of(n.targets[0]) == nm and n not in inside for n in ot.body_nodes() if n.lineno >= lp.lineno)
-    chk(fresh, 'reduce test reads the stack top each iteration: %s' % src_of(c), 'the pending operator must be re-read from operators[-1] on every iteration of the reduce loop', ot)
-    normalized = None
-    if lhs == 't.priority':
-        normalized = op
-    else:
-        normalized = {ast.GtE: ast.LtE, ast.Gt: ast.Lt, ast.LtE: ast.GtE, ast.Lt: ast.Gt}.get(op)
-    chk(normalized is ast.LtE, 'reduce while new.priority <= pending.priority: %s' % src_of(c),
-        'equal precedence must reduce (left association): the test must be <=', ot)
-    # pop-on-reduce / push-after
-    body_src = src_of(lp)
-    chk('operands.append(operators.pop())' in body_src, 'reduce moves the pending operator to the output', 'reduce step must be operands.append(operators.pop())', ot)
+    c = cmps[0] if cmps else lp.test
     # a prefix operator never reduces a pending operator
     guard = src_of(lp.test)
     skips_op1 = 'TokenType.Op1' in guard and ('!=' in guard or 'not' in guard)
